@@ -855,6 +855,14 @@ impl<'a> RepositoryUpdate<'a> {
         ) {
             Ok(Some(notify)) => notify,
             Ok(None) => {
+                if current.is_none() {
+                    // Not modified but we have nothing: the server answered
+                    // a request without validators with 304.
+                    self.log.warn(format_args!(
+                        "Not modified without a local copy."
+                    ));
+                    return Ok(false)
+                }
                 self.not_modified(current)?;
                 return Ok(true)
             }
